@@ -29,6 +29,16 @@ def run(cx: Cx):
     agents = Attr(self_s, 'agents')
     ps = [p for p in cx.walker.paths(fn, WalkOptions(unroll=1, domain='real')) if p.end == 'return']
     cx.floor('get_agents_at returning paths', len(ps), 1)
+    # every query has an answer: an empty box (negative leeways) answers [], it is not an error
+    direct = [p for p in cx.walker.paths(fn, WalkOptions(unroll=1, domain='real')) if p.end == 'raise' and p.last.data.get('direct')]
+    if direct:
+        p0 = direct[0]
+        cx.violation('R-GUARD', fn.qualname, 'every-query-is-answered',
+                     f"get_agents_at raises {p0.last.data.get('exc')} under [{p0.cond!r}]: the agents inside the box are asked for, and a box "
+                     f"nothing can be inside of (negative leeways) has the answer [] - it is not an error", where=cx.where(fn, p0.last.line),
+                     path=p0.lines())
+    else:
+        cx.ok('R-GUARD', 'get_agents_at refuses no query (no raise statement of its own)', where=cx.where(fn), function=fn.qualname)
     reads = set()
     cases = []          # (agent term, membership condition, where)
     loop_groups = {}    # for results built by a loop with conditional appends: loop line -> [(agent term, cond, appended)]
